@@ -54,7 +54,7 @@ func corrBodies(ctx *Ctx, n int) error {
 			continue
 		}
 		var mo []struct {
-			Ct, Tag, Suffix, Type            []int
+			Ct, Tag, Suffix, Type             []int
 			Default, Supported, Client, Fixed bool
 		}
 		if e := ctx.Model(J{"fn": "bodyDefs", "cts": encC, "json": encJ, "camel": encK, "op": bytesOf("Op")}, &mo); e != nil {
